@@ -143,12 +143,31 @@ func c20RealScenarios(tier string) []pm.RealParams {
 	}
 	// one worker that served a request, sat idle for longer than --timeout, and serves again:
 	// a request that takes less than --timeout is answered (P = idle pause of 1.6 s, --timeout 1 s)
-	idle := []string{"FPS", "SPS", "FPF", "H", "HF", "HH"}
+	idle := []string{"FPS", "SPS", "FPF", "H", "HF", "HH", "GH", "FGHF"}
 	if tier == "thorough" {
 		idle = append(idle, "FPFPS", "SPFPS", "HPS", "FPH")
 	}
 	for _, s := range idle {
 		out = append(out, pm.RealParams{Init: 1, Max: 1, Requests: s})
+	}
+	return out
+}
+
+// c20LongScenarios: init 2 with max-procs well above init + one spawn batch.
+func c20LongScenarios() []c20Params {
+	ev := func(k string, w int) c20Event { return c20Event{Worker: w, Kind: k} }
+	var out []c20Params
+	for _, max := range []int{12, 14, 24} {
+		evs := []c20Event{ev("busy", 0), ev("busy", 1)}
+		for w := 2; w <= 12; w++ {
+			evs = append(evs, ev("exit", w))
+		}
+		out = append(out, c20Params{Init: 2, Max: max, Events: evs})
+		evs2 := []c20Event{ev("busy", 0), ev("busy", 1), ev("timeout", 0), ev("timeout", 1)}
+		for w := 2; w <= 11; w++ {
+			evs2 = append(evs2, ev("exit", w))
+		}
+		out = append(out, c20Params{Init: 2, Max: max, Events: evs2})
 	}
 	return out
 }
@@ -184,7 +203,7 @@ func init() {
 		ID:    "C20",
 		Level: "model_checking",
 		Rule: "E3 on the real prefork master with real child processes (the harness binary re-executed as a fake worker): configurations 1 <= init <= max <= M x every sequence of E environment events over {worker 0..W-1} x {reports BUSY, reports IDLE, times out (reports STOPPED and exits), exits}; within an execution the controller chooses at every step between delivering any pending hand-over (child registered / state report / child exit, released one at a time so the master's select never has two ready senders), letting any pending spawn proceed, and firing the next environment event; default = pending hand-overs first (FIFO), then spawns, then the event; every alternative within the deviation bound is explored (stateless DFS, one fresh OS process per execution). Invariants after every step: live worker processes (controller's registry of real processes) <= max-procs and the master's own child count <= max-procs; at quiescence (all workers idle, everything drained): live >= init-procs and the master's registry equals the set of live processes. " +
-			"Plus a small enumerated (not exhaustive) real-worker family: the real master with the real StartWorker and a handler that can hang, free-running, for every sequence of <= 2 (thorough 3) requests over {fast, slow, hanging}, plus, on a one-worker pool, sequences with an idle pause longer than --timeout between two requests and sequences whose only worker hangs (the master must survive having no worker at all for a moment): every request is answered exactly once by one worker (a hanging one gets its connection closed when its worker is terminated after --timeout), no worker reports BUSY twice without IDLE, the pool stays <= max-procs and returns to >= init-procs.",
+			"Plus 6 directed long scenarios under the default schedule (init 2, max-procs 12 / 14 / 24: all workers busy, a scale-up batch, then more exits than the batch held). Plus a small enumerated (not exhaustive) real-worker family (with garbage collections of the master forced between requests): the real master with the real StartWorker and a handler that can hang, free-running, for every sequence of <= 2 (thorough 3) requests over {fast, slow, hanging}, plus, on a one-worker pool, sequences with an idle pause longer than --timeout between two requests and sequences whose only worker hangs (the master must survive having no worker at all for a moment): every request is answered exactly once by one worker (a hanging one gets its connection closed when its worker is terminated after --timeout), no worker reports BUSY twice without IDLE, the pool stays <= max-procs and returns to >= init-procs.",
 		Assumptions: []string{
 			"the controller waits for the consequence gates each action must produce (8 s failure detector, reported as a harness error, never as a violation)",
 			"kernel scheduling of real accept()/timeouts of real workers is not part of this exploration; Unix-socket listeners are not covered",
@@ -315,6 +334,34 @@ func init() {
 							c.Sample(map[string]any{"init": init, "max": max, "events": evs, "executions": n})
 						}
 					}
+				}
+			}
+			// directed long scenarios in a large configuration (default schedule only): a scale-up
+			// batch that does not fill max-procs, then more exits than the batch held
+			for _, sc := range c20LongScenarios() {
+				idx++
+				if !c.Mine(idx) {
+					continue
+				}
+				if c.Expired() {
+					c.Note("deadline hit in the long scenarios")
+					break
+				}
+				base := sc
+				c.Case(idx, func() json.RawMessage { return mc.J(c20Case{P: base}) })
+				r, err := c20RunSub(base)
+				c.Eval(true)
+				c.Stat("long_scenarios", 1)
+				if err != nil || r.Harness != "" {
+					c.Stat("harness_errors", 1)
+					c.Inexhaustive(fmt.Sprintf("a long scenario could not be evaluated: %v %s", err, r.Harness))
+					continue
+				}
+				c.Stat("transitions", int64(len(r.Actions)))
+				c.StatMax("max_live_workers_seen", int64(r.MaxAlive))
+				if len(r.Violations) > 0 {
+					c.Fail(mc.Failure{Sig: c20Sig(base, r), Kind: "mismatch", Bucket: strings.SplitN(r.Violations[0], " (", 2)[0], Case: mc.J(c20Case{P: base, Actions: r.Actions}),
+						Expected: fmt.Sprintf("init-procs %d <= live workers <= max-procs %d", base.Init, base.Max), Observed: strings.Join(r.Violations, "; ")})
 				}
 			}
 			c.Bound("configurations", fmt.Sprintf("1 <= init <= max <= %d", M))
